@@ -174,5 +174,112 @@ def rules(ctx, db):
                "the write buffer's size limit is compared before bytes are appended", f)
 
 
+def rule_read_side(ctx, db):
+    R = ctx.rule
+    R("R4", "same-value+GUARD", "blocking-style read side: what fill_buf hands out is the buffer's content (also after end-of-stream: "
+      "buffered bytes are delivered before EOF is reported), WouldBlock needs both an empty buffer and no EOF; read / "
+      "read_buf_uninit consume exactly the count they copied; the EOF flag is set only by a zero-length refill; a refill "
+      "compacts first and appends at buf_len")
+    SRB = "compio_io::compat::sync_stream::SyncReadBuf"
+    if not any(f.self_adt == SRB for f in db.fns.values()):
+        return
+    def m(name):
+        return [f for f in db.fns.values() if f.self_adt == SRB and f.short == name and f.kind not in ("closure", "coroutine")]
+    fb = m("fill_buf")
+    if not fb:
+        ctx.missing("R4", "SyncReadBuf::fill_buf")
+    for f in fb:
+        ar = calls(f, r"SyncReadBuf::available_read$")
+        oks = [(bi, st) for bi, si, st in f.stmts() if st.get("a") and st["a"]["l"] == 0 and st.get("r", {}).get("k") == "agg" and st["r"].get("var") == "Ok"]
+        good = bool(ar) and bool(oks)
+        for bi, st in oks:
+            pl = op_place(st["r"]["ops"][0]) if st["r"].get("ops") else None
+            if pl is None or not any(call_matches(ct, r"SyncReadBuf::available_read$") for _, ct in data_deps(f, pl["l"])[1]):
+                good = False
+        ctx.ob("R4", "fill_buf-hands-out-the-buffer", good,
+               "every Ok(..) of fill_buf is the slice obtained from available_read() — never a constant empty slice while bytes "
+               "are still buffered", f)
+        wb = [bb for bb, _ in calls(f, r"sync_stream::would_block$")]
+        def eof_switch(b):
+            for bi, blk in enumerate(f.blocks):
+                t = blk["t"]
+                if t["k"] == "switch" and t.get("oty") == "bool":
+                    sl = op_place(t["op"])
+                    if sl is None:
+                        continue
+                    for d in f.cfg.defs.get(sl["l"], []):
+                        if d[0] == "assign" and any(any(isinstance(e, list) and e[0] == "f" and e[2] == "eof" for e in pl["p"]) for pl in rvalue_places(d[3]["r"])):
+                            f_t = dict(t["tg"]).get("0")
+                            if f_t is not None and f.cfg.edge_dominates(bi, f_t, b):
+                                return True
+            return False
+        ctx.ob("R4", "wouldblock-needs-empty-and-not-eof", bool(wb) and all(guarded_by_bool(f, b, r"slice::<impl \[T\]>::is_empty$", True) is not None and eof_switch(b) for b in wb),
+               "WouldBlock is returned only when the buffer is empty and end-of-stream was not seen", f)
+    for nm in ("read_buf_uninit", "read"):
+        fam = [f for f in db.fns.values() if db.root_fn(f).self_adt == SRB and db.root_fn(f).short == nm]
+        ok = False
+        for f in fam:
+            for bb, t in calls(f, r"SyncReadBuf::consume$"):
+                pl = op_place(t["args"][1])
+                if pl is None:
+                    continue
+                locs, cr, places = data_deps(f, pl["l"])
+                if nm == "read_buf_uninit":
+                    ok = ok or any(call_matches(ct, r"core::cmp::Ord::min$") for _, ct in cr)
+                else:
+                    ok = ok or (f.kind == "closure" and 2 in locs)
+        if not fam:
+            ctx.missing("R4", "SyncReadBuf::" + nm)
+        ctx.ob("R4", "consumes-the-copied-count:" + nm, ok,
+               "the count taken off the buffer is the count copied to the caller", fam[0] if fam else None)
+    frb = [f for f in db.fns.values() if f.kind == "coroutine" and db.root_fn(f).self_adt == SRB and db.root_fn(f).short == "fill_read_buf" and
+           f.parent == db.root_fn(f).id]
+    for f in frb:
+        wr = [bi for bi, si, st in f.stmts() if st.get("a") and any(isinstance(e, list) and e[0] == "f" and e[2] == "eof" for e in st["a"]["p"])]
+        okz = bool(wr)
+        for b in wr:
+            g = False
+            for bi, blk in enumerate(f.blocks):
+                t = blk["t"]
+                if t["k"] == "switch" and t.get("oty") == "usize":
+                    z = dict(t["tg"]).get("0")
+                    if z is not None and f.cfg.edge_dominates(bi, z, b):
+                        g = True
+            for bi, si, st in f.stmts():
+                r = st.get("r", {})
+                if r.get("k") == "bin" and r.get("x") == "Eq" and any(str(o.get("v")) == "0" for o in r["ops"] if "k" in o):
+                    from ..util import value_switches
+                    for sw in value_switches(f, st["a"]["l"], through_calls=None):
+                        tt = sw["otherwise"] if not sw["inverted"] else sw["targets"].get("0")
+                        if tt is not None and f.cfg.edge_dominates(sw["bb"], tt, b):
+                            g = True
+            okz = okz and g
+        ctx.ob("R4", "eof-set-only-by-a-zero-refill", okz, "the EOF flag is written only on the `read == 0` edge", f)
+        cp = [bb for bb, _ in calls(f, r"Buffer::compact_to$")]
+        wi = [bb for bb, _ in calls(f, r"Buffer::<B>::with$")]
+        ctx.ob("R4", "refill-compacts-first", bool(cp) and bool(wi) and all(any(f.cfg.dominates(c, w) for c in cp) for w in wi),
+               "unconsumed bytes are moved to the front before the buffer is lent to the inner read", f)
+    fam = [f for f in db.fns.values() if db.root_fn(f).self_adt == SRB and db.root_fn(f).short == "fill_read_buf"]
+    oka = False
+    for f in fam:
+        for bb, t in calls(f, r"IoBufExt::slice$"):
+            pl = op_place(t["args"][1])
+            if pl is not None and any(call_matches(ct, r"buf_len$") for _, ct in data_deps(f, pl["l"])[1]):
+                oka = True
+    if fam:
+        ctx.ob("R4", "refill-appends-at-buf_len", oka, "the inner read gets the buffer sliced from its current length", fam[0])
+    cs = m("consume")
+    for f in cs:
+        adv = [bb for bb, _ in calls(f, r"Buffer::<B>::advance$")]
+        cp = [bb for bb, _ in calls(f, r"Buffer::compact_to$")]
+        ctx.ob("R4", "consume-advances-then-compacts-when-done", bool(adv) and all(guarded_by_bool(f, b, r"Buffer::<B>::advance$", True) is not None for b in cp),
+               "consume advances the cursor by the amount and compacts only when everything was consumed", f)
+
+
+def rules_all(ctx, db):
+    rules(ctx, db)
+    rule_read_side(ctx, db)
+
+
 def check(tier):
-    return engine.run("C12", tier, rules, NOT_DECIDED, [])
+    return engine.run("C12", tier, rules_all, NOT_DECIDED, [])
